@@ -143,6 +143,20 @@ def run(chk):
   jm += [{'kind': 'class', 'depth': rng.randint(1, 2), 'inside': rng.randint(1, 2), 'own': rng.random() < 0.5, 'seq': [], 'applies': 3, 'seed': rng.randint(0, 99)}
          for _ in range(12 if chk.tier == 'thorough' else 3)]
   jm += [{'kind': 'helper', 'depth': rng.randint(1, 2), 'inside': rng.randint(1, 2), 'own': False, 'seq': [], 'applies': 3, 'seed': 0} for _ in range(6 if chk.tier == 'thorough' else 2)]
+  # counters two or three levels below a module whose helper method is lifted, used in plain code around the lifted call
+  sm = [{'depth': rng.randint(0, 2), 'seq': ['plain'] * rng.randint(0, 1) + [rng.choice(['plain', 'lifted']) for _ in range(rng.randint(1, 3))] + ['lifted', 'plain']}
+        for _ in range(12 if chk.tier == 'thorough' else 4)]
+  sr = common.run_impl('impl_c05.py', {'state_methods': sm}, timeout=1500)['state_methods']
+  for c, r in zip(sm, sr):
+    chk.count({'state_method': c}, c['depth'] >= 1)
+    if 'err' in r:
+      chk.violation('oracle', 'a setup-style module with a lifted helper method could not be applied: %s' % r['err'], {'case': c, 'tb': r.get('tb')})
+      continue
+    want = r['ok']['plain']
+    for kind, got in r['ok'].items():
+      if got != want:
+        chk.violation('oracle', 'a helper method under nn.%s that calls a setup-defined sub-module %d levels above its counter, used in plain code before and after: outputs or the updated '
+                      'mutable collection differ from the undecorated module' % (kind, c['depth']), {'case': c, 'lifted': got, 'plain': want})
   jr = common.run_impl('impl_c05.py', {'jit_methods': jm}, timeout=1500)['jit_methods']
   for c, r in zip(jm, jr):
     chk.count({'jit_method': c}, 'jit' in c['seq'] or c.get('kind') == 'helper')
